@@ -7,6 +7,7 @@ graph before and after, and a slot-exchange check against an independent path-ba
 
 stdin: {"mode": "cases", "tier": ...} | {"mode": "replay", "case": {...}}"""
 import itertools
+import os
 import sys
 
 import numpy as np
@@ -756,8 +757,20 @@ def run_gp(c):
                 oracle[0] = 'after TreeSpace(): ' + o
             gp = GP(hyperparams={'p_reproduction': c['p_rep'], 'p_mutation': c['p_mut'], 'p_crossover': c['p_cross'],
                                  'prunning_ratio': c['ratio'][0] / c['ratio'][1]})
-            gp.run(sp, Function(pointer=objective), pre_evaluation_hook=hook)
+            hist = gp.run(sp, Function(pointer=objective), pre_evaluation_hook=hook)
             take(sp, 'at return')
+            # saving the returned history is a read: the live trees (the last recorded best tree IS the space's best tree) must be as well
+            # formed afterwards as before
+            if oracle[0] is None:
+                try:
+                    import tempfile
+                    with tempfile.TemporaryDirectory() as td:
+                        hist.save(os.path.join(td, 'h.pkl'))
+                    o2 = check_population(sp, [('best_tree', sp.best_tree)] + [('tree %d' % i, t) for i, t in enumerate(sp.trees)])
+                    if o2:
+                        oracle[0] = 'after history.save(): ' + o2
+                except Exception:  # noqa: BLE001   (a save that raises is C19's subject)
+                    pass
             return sp
         sp, exc = guarded(go)
     if exc:
